@@ -18,7 +18,10 @@ def run(ctx):
                     trivial_rule=nontrivial, many=(1, 3000) if quick else (3, 3400))
     ctx.cov["rule"] = ("scripts of 8-45 FEB calls by 2-8 tasks and 0-2 non-qthread pthreads on 1-3 words, generated against the model's "
                        "current state (would-block / state-flipping / neutral operations, every dest/src aliasing mode, _const and _nb "
-                       "spellings, lock/unlock); non-trivial = at least one call blocked and at least one waiter was released")
+                       "spellings, lock/unlock); plus 'many words' scripts on 1x1 (3000-3800 consecutive words emptied at the same time, each probed, "
+                       "a third refilled and emptied again, all filled and probed: the 4 record tables of src/hashmap.c grow past 332, 665 "
+                       "records and shrink again; only the touched word and two sample words are audited per step); "
+                       "non-trivial = at least one call blocked and at least one waiter was released")
     ctx.assumptions += ["op-atomic granularity: each API call is one step (the record lock makes it so; lock discipline itself is "
                         "exercised on 2x1, 2x2, 1x2, 3x1 configurations but not proved)",
                         "micro-step note (DESIGN C01 Extended): writeF/writeFF/readFF/readFF_nb touch *dest with no lock held when "
